@@ -7,7 +7,7 @@ ROOT = os.path.dirname(os.path.dirname(os.path.abspath(__file__)))
 BASE = "cd /repo && /venv/bin/python -m pytest -ra -q -p no:cacheprovider --timeout=900 --continue-on-collection-errors"
 
 CHECKS = {
-    "C04": ("exploration", "5.C04", "write-history replayed as read script; cp1252 image oracle (runtime monitor on real EoWriter/EoReader)",
+    "C04": ("exploration", "5.C04", "write-history replayed as read script; cp1252 image oracle (runtime monitor on real EoWriter/EoReader); string-length sweep; thread stress with private writers/readers",
             "Seeded-random write histories (all add_* kinds, both sanitisation modes) read back through the real reader; every read compared with the written value's cp1252 image and exact consumption checked. Held on the histories observed, not a proof.",
             "cp1252 image table built from the codec's data table; histories limited to the format's own exclusions."),
     "C05": ("exploration", "5.C05", "lock-step reference model + class invariants (icontract) + guarded buffer on the real EoReader",
@@ -16,22 +16,22 @@ CHECKS = {
     "C06": ("exploration", "5.C06", "writer event log vs reader event log (offset / non-interference monitor)",
             "Random chunk lists and per-chunk under-/over-read plans; the writer's recorded chunk offsets are compared with the reader's position after each next_chunk, prefix reads with written values, surplus reads with 0/empty; every field write scanned for 0xFF.",
             "Fields are EO integers and non-padded strings with sanitisation on."),
-    "C07": ("exploration", "5.C07", "differential codec + contracts (icontract) on real encode_number/decode_number; exhaustive sub-ranges",
+    "C07": ("exploration", "5.C07", "differential codec + contracts (icontract) on real encode_number/decode_number; exhaustive sub-ranges; polluted histories; thread stress incl. cold start and sys.monitoring yield injection; -O/-OO interpreters",
             "Exhaustive below 253^2 (quick) / 253^3 (thorough), stratified over every (d3,d2) digit pair and threshold windows in the 4-byte range, decode exhaustive to 2 (quick) / 3 (thorough) bytes; round-trip, wire-safety, prefix, injectivity and positional-formula monitors.",
             "Independent divmod reference cross-checked against the repository's 24 pinned vectors."),
-    "C08": ("exploration", "5.C08", "differential + algebraic monitors on real encode_string/decode_string; exhaustive 2x2x256 table",
+    "C08": ("exploration", "5.C08", "differential + algebraic monitors on real encode_string/decode_string; exhaustive 2x2x256 table; padded run shapes; live buffer exports; thread stress with yield injection; -O/-OO interpreters",
             "Complete (byte x index parity x length parity) table, all strings up to the bound over a 12-symbol boundary alphabet, random long strings; self-inverse (except 0x7E), length, reversal, range and 0x00/0xFF preservation checked per case.",
             "Reference substitution table cross-checked against the repository's six pinned vectors."),
     "C09": ("exploration", "5.C09", "per-call snapshot monitor (incl. exception path) against reference writer",
             "Random writer histories mixing valid and invalid calls on non-empty writers plus a full grid of string-method x length-relation x padded x mode; atomic rejection, declared append size, exact image / sanitisation checked on every call.",
             "Integers >= 0; one byte per character."),
-    "C10": ("exploration", "5.C10", "inverse / permutation / multiset monitors on the real encryption primitives",
+    "C10": ("exploration", "5.C10", "inverse / permutation / multiset monitors on the real encryption primitives; exhaustive byte pairs, run-length sweeps; live buffer exports; thread stress with yield injection; -O/-OO interpreters",
             "Every length up to the bound with position-labelled data (permutation recovered and compared with a list-based reference, data-independence checked), all 256 byte values for flip_msb, all multiple/non-multiple layouts up to the pattern bound, random pipelines undone by inverses.",
             "List-based reference permutation / run reversal cross-checked on the documented examples."),
-    "C11": ("exploration", "5.C11", "exhaustive differential run against a UBSan-instrumented C oracle (clang -fsanitize=undefined,integer)",
+    "C11": ("exploration", "5.C11", "exhaustive differential run against a UBSan-instrumented C oracle (clang -fsanitize=undefined,integer); repeated / keyword / int-like calls, lowered decimal context, thread stress incl. cold start with sys.monitoring yield injection, -O/-OO interpreters",
             "All 16,194,277 challenges of the three-byte field in both tiers: real hash == client arithmetic (C oracle under UBSan, cross-checked by a Python truncating-remainder oracle); range clause checked for challenges <= 11,092,110.",
             "The client evaluates the published formula with 32-bit int and truncating remainder."),
-    "C12": ("exploration", "5.C12", "injected enumerating random source (choice-tree odometer) + range/reconstruction monitors",
+    "C12": ("exploration", "5.C12", "injected enumerating random source (choice-tree odometer) + range/reconstruction monitors; every draw script dealt twice, earlier starts re-read after later ones",
             "Every outcome of every draw of the three generate() functions is produced once (57,751 + 442,764 + 240 outcomes observed); ranges, field fit and from-values reconstruction checked on each.",
             "generate() draws through the random module's functions; otherwise the check samples and reports it."),
     "C13": ("exploration", "5.C13", "lock-step counter model + twin-peer comparison on the real PacketSequencer",
@@ -52,7 +52,7 @@ CHECKS = {
     "C16": ("exploration", "5.C16", "one-violation object mutants checked by the reference validity rules; monitor on the exception class of real serialize",
             "Every catalogued violation (None for required, wrong fixed/padded/length-bounded sizes, integers / ordinals / elements at or above the limit, wrong-kind case data) applied at eligible fields at every nesting depth of generated values; real serialize must raise SerializationError or ValueError.",
             "Invalidity is judged by the reference interpreter from the declaration."),
-    "C19": ("exploration", "5.C19", "setattr/delattr, aliasing and double-serialization monitors on real generated instances (constructed and deserialized)",
+    "C19": ("exploration", "5.C19", "setattr/delattr, aliasing (five argument forms), mutable-getter and double-serialization monitors on real generated instances (constructed and deserialized), incl. reused / sanitising / refusing writers and earlier instances re-checked",
             "Every public field and byte_size of every instance reached (nested structs and case data included) is assigned and deleted (must raise AttributeError); arrays must be tuples; caller-side mutation of constructor lists must not show; serialization is repeatable.",
             "Type-conforming constructor arguments."),
     "C14": ("exploration", "5.C14", "construction histories with membership snapshots on real enum classes (hand-written + generated), two interpreters",
@@ -61,7 +61,7 @@ CHECKS = {
     "C17": ("exploration", "5.C17", "one-rule spec mutants at every placement, certified by an independent grammar model; monitor = generator raises vs returns",
             "Valid trees (corpus + SpecGen) x the catalogue of single rule-violating edits applied at random eligible sites per (operator, placement class: top level / chunked / switch case / case in chunked / file); the real generator must raise for every mutant the grammar model confirms.",
             "Grammar model vf/ref/grammar.py states the catalogue's rules."),
-    "C18": ("exploration", "5.C18", "injected environment: hash-seed sweep, os.walk shim, audit hook, repeated / failed / pre-populated runs, protocol.py CLI, fresh-interpreter import probe",
+    "C18": ("exploration", "5.C18", "injected environment: hash-seed sweep, os.walk shim, audit hook, repeated / failed / edited-in-between / clean-in-between runs, pre-populated and mangled outputs, root spellings incl. symlinks, XML encodings and cosmetics, protocol.py CLI, fresh-interpreter import probe",
             "Every certified-valid tree is generated in fresh interpreters under >= 11 configurations; outputs must be byte-identical, the audit hook must see only writes under the output root (none twice), and a fresh interpreter must import the package and find every declared type as a class in its module, its documented subpackage and the top level.",
             "Directory enumeration order is explored through an os.walk shim; validity of trees = grammar model."),
     "C20": ("exploration", "5.C20", "fresh interpreter per first-import choice; attribute-walk and object-identity monitors against sys.modules and defining modules",
